@@ -1082,7 +1082,12 @@ namespace
                 {
                     m_switched = true;
                     auto dswitch = frame[d_switch::magic].data_try<d_switch>();
-                    return dswitch ? (dswitch->target_code().empty() ? result::ok : result::exchange) : result::fail;
+                    if (dswitch && dswitch->target_code().empty())
+                    { // nothing got selected: the switch yields nil, not whatever its body left behind (eg. a trailing `case x;`)
+                        runtime.context_active().clear_values();
+                        return result::ok;
+                    }
+                    return dswitch ? result::exchange : result::fail;
                 }
                 else
                 {
